@@ -26,6 +26,7 @@ type Env struct {
 	bound     map[string]bool
 	atEnd     bool
 	hdr       *ssa.BasicBlock
+	upTo      ssa.Instruction
 }
 
 func (c *fnCtx) newEnv(st, old *State) *Env {
@@ -39,7 +40,7 @@ func (c *fnCtx) newEnvAt(st *State, at *ssa.BasicBlock) *Env {
 }
 
 func (e *Env) child() *Env {
-	n := &Env{c: e.c, st: e.st, old: e.old, vars: map[string]SymVal{}, at: e.at, calleePkg: e.calleePkg, bound: map[string]bool{}, atEnd: e.atEnd, hdr: e.hdr}
+	n := &Env{c: e.c, st: e.st, old: e.old, vars: map[string]SymVal{}, at: e.at, calleePkg: e.calleePkg, bound: map[string]bool{}, atEnd: e.atEnd, hdr: e.hdr, upTo: e.upTo}
 	for k, v := range e.vars {
 		n.vars[k] = v
 	}
@@ -287,7 +288,7 @@ func (e *Env) lookup(name string) (SymVal, bool) {
 		// first use: ghost state starts as an unconstrained entry value
 		return mkMath(e.c.ghostEntry(name)), true
 	}
-	if v, ok := e.c.lookupVarX(e.st, name, e.at, e.atEnd, e.hdr); ok {
+	if v, ok := e.c.lookupVarY(e.st, name, e.at, e.atEnd, e.hdr, e.upTo); ok {
 		return v, true
 	}
 	return SymVal{}, false
@@ -932,9 +933,12 @@ func (e *Env) call(ex *ast.CallExpr) (SymVal, error) {
 		}
 		if c.bv {
 			tt := types.Universe.Lookup(name).Type()
-			x = e.fixLit(x, bvWidth(SymVal{T: tt}))
-			if x.T == nil {
+			if strings.HasPrefix(x.S, "$lit:") {
+				x = e.fixLit(x, bvWidth(SymVal{T: tt}))
 				return SymVal{K: KInt, T: tt, S: x.S}, nil
+			}
+			if x.T == nil {
+				return SymVal{}, fmt.Errorf("conversion %s(...) of an untyped bit-vector", name)
 			}
 			return c.bvConvert(x, x.T, tt), nil
 		}
@@ -1283,16 +1287,25 @@ func (e *Env) specSort(tn string) (string, Kind) {
 		return "Ref", KRef
 	case "iface":
 		return "Iface", KIface
-	case "u32":
-		return "(_ BitVec 32)", KInt
-	case "u16":
-		return "(_ BitVec 16)", KInt
-	case "u64":
-		return "(_ BitVec 64)", KInt
-	case "u8":
-		return "(_ BitVec 8)", KInt
+	}
+	if t := specIntType(tn); t != nil {
+		bits, _, _ := intInfo(t)
+		if e.c.bv {
+			return fmt.Sprintf("(_ BitVec %d)", bits), KInt
+		}
+		return "Int", KInt
 	}
 	return "", KOpq
+}
+
+// specIntType maps the fixed-width spec sorts u8..u64 / i8..i64 to Go types.
+func specIntType(tn string) types.Type {
+	m := map[string]types.BasicKind{"u8": types.Uint8, "u16": types.Uint16, "u32": types.Uint32, "u64": types.Uint64,
+		"i8": types.Int8, "i16": types.Int16, "i32": types.Int32, "i64": types.Int64}
+	if k, ok := m[tn]; ok {
+		return types.Typ[k]
+	}
+	return nil
 }
 
 func (e *Env) callSpecFn(sf *SpecFn, ex *ast.CallExpr) (SymVal, error) {
@@ -1308,15 +1321,15 @@ func (e *Env) callSpecFn(sf *SpecFn, ex *ast.CallExpr) (SymVal, error) {
 		}
 		if c.bv {
 			w := 64
-			switch sf.Params[i].Type {
-			case "u32":
-				w = 32
-			case "u16":
-				w = 16
-			case "u8":
-				w = 8
+			if t := specIntType(sf.Params[i].Type); t != nil {
+				w, _, _ = intInfo(t)
+				v = e.fixLit(v, w)
+				if v.K == KInt {
+					v.T = t
+				}
+			} else {
+				v = e.fixLit(v, w)
 			}
-			v = e.fixLit(v, w)
 		}
 		args = append(args, v)
 	}
@@ -1330,7 +1343,15 @@ func (e *Env) callSpecFn(sf *SpecFn, ex *ast.CallExpr) (SymVal, error) {
 		}
 		c.specDepth++
 		defer func() { c.specDepth-- }()
-		return ce.evalText(sf.Body)
+		rv, err := ce.evalText(sf.Body)
+		if err == nil && c.bv && rv.K == KInt {
+			if t := specIntType(sf.Result); t != nil {
+				w, _, _ := intInfo(t)
+				rv = ce.fixLit(rv, w)
+				rv.T = t
+			}
+		}
+		return rv, err
 	}
 	// uninterpreted: declare with flattened argument sorts
 	var argSorts, argTerms []string
